@@ -279,3 +279,27 @@ for _meth, _ax, _other, _rows in (('sort_index', '_index', '_columns', True), ('
             # the data of the sorted axis is taken by the very same permutation
             (f'result.data == ufe("take_rows", self._blocks, {_ORDER("_index")})' if _rows else f'result.data == ufe("take_columns", self._blocks, {_ORDER("_columns")})'),
         ])
+
+
+RECORDS['SlSeries'] = {'_index': 'elem', 'values': 'arr', '_name': 'elem'}
+RECORDS['SlSeriesResult'] = {'values': 'arr', 'index': 'elem', 'name': 'elem'}
+contract('static_frame/core/series.py', 'Series.sort_index', key='Series.sort_index',
+    props=['C12', 'C01'],
+    params=dict(self='SlSeries', ascending='bool', kind='elem', key='elem'), order=['self'], kwonly=['ascending', 'kind', 'key'],
+    result='SlSeriesResult',
+    requires=['self.values.ndim == 1'],
+    calls={
+        'sort_index_for_order': _SIFO('_index'),
+        'self._index.__getitem__': dict(params=dict(o='elem'), order=['o'], result='elem', ensures=['result == ufe("take_labels", self._index, o)']),
+        # ASSUMED NumPy: fancy indexing by a permutation yields a NEW writeable array of the same dtype and length (cells = take)
+        'self.values.__getitem__': dict(params=dict(o='elem'), order=['o'], result='arr',
+                                        ensures=['result.fresh and result.writeable and result.ndim == 1 and result.rows == self.values.rows and result.dtype == self.values.dtype',
+                                                 'result.src != self.values.src']),
+        'self.__class__': dict(params=dict(values='arr', index='elem', name='elem'), order=['values'], kwonly=['index', 'name', 'own_index'], result='SlSeriesResult',
+                               ensures=['result.values == values and result.index == index and result.name == name']),
+    },
+    ensures=[
+        f'result.index == ufe("take_labels", self._index, {_ORDER("_index")})',
+        'result.name == self._name',
+        'not result.values.writeable and result.values.src != self.values.src and result.values.dtype == self.values.dtype',      # a new read-only array
+    ])
